@@ -161,6 +161,14 @@ def build_form(case, with_heur=True):
                 gr["arcs"] = [a for a in gr["arcs"] if (a[0], a[1]) != (0, 0)]
             if (gw["nodes"], sorted(gw["arcs"]), gw["cap"], gw["init"]) != (gr["nodes"], sorted(gr["arcs"]), gr["cap"], gr["init"]):
                 o0.vh_graph_mismatch = (gw, gr)
+        else:
+            # strict flavour: an arc out of the real depot given before set_depot is judged by the strict rule (and may be refused),
+            # but no arc may be stored that the depot-first construction refuses (D13)
+            vr = VU.build_vrptw(spec)
+            gw, gr = VU.graph_of(o0), VU.graph_of(SequenceBasedRoutingProblem(vr, strict=True))
+            extra = [a for a in gw["arcs"] if (a[0], a[1]) != (0, 0) and a not in gr["arcs"]]
+            if gw["nodes"] != gr["nodes"] or extra:
+                o0.vh_graph_mismatch = (gw, dict(gr, arcs=[a for a in gr["arcs"] if a in gw["arcs"] or (a[0], a[1]) == (0, 0)]))
     else:
         v = VU.build_vrptw(case["spec"])
         o0 = None
